@@ -49,6 +49,8 @@ func init() {
 				Edits: []Edit{{File: "channel/sendinteractive.go", Old: "\t\t\tnb, err = readUntilF(ctx, []byte(e.ChannelInput))\n\t\t\tif err != nil {\n\t\t\t\tcr <- &result{b: nil, err: err}", New: "\t\t\tnb, err = readUntilF(ctx, []byte(e.ChannelInput))\n\t\t\tif err != nil {\n\t\t\t\tcr <- &result{b: nil, err: fmt.Errorf(\"event %d: %v\", i, err)}"}}},
 			{ID: "C05-rpc-poller-conn-wide", Desc: "RPC poller bounded by the connection-wide timeout", Rule: "C05/deadline-source",
 				Edits: []Edit{{File: "driver/netconf/rpc.go", Old: "ctx, cancel := context.WithCancel(context.Background())", New: "ctx, cancel := context.WithTimeout(context.Background(), d.Channel.TimeoutOps)"}}},
+			{ID: "C05-driver-closes-again", Desc: "generic Open closes the channel again when Channel.Open failed", Rule: "C05/no-double-close",
+				Edits: []Edit{{File: "driver/generic/driver.go", Old: "\terr := d.Channel.Open()\n\tif err != nil {\n\t\treturn err\n\t}", New: "\terr := d.Channel.Open()\n\tif err != nil {\n\t\t_ = d.Channel.Close()\n\n\t\treturn err\n\t}"}}},
 			{ID: "C05-auth-timer-removed", Desc: "telnet authentication waits for the worker without a timer", Rule: "C05/deadline-source",
 				Edits: []Edit{{File: "channel/auth.go", Old: "\tt := time.NewTimer(c.TimeoutOps)\n\n\tselect {\n\tcase r := <-cr:\n\t\treturn r.b, r.err\n\tcase <-t.C:\n\t\tc.l.Critical(\"channel timeout during in channel telnet authentication\")\n\n\t\treturn nil, fmt.Errorf(\n\t\t\t\"%w: channel timeout during in channel telnet authentication\",\n\t\t\tutil.ErrTimeoutError,\n\t\t)\n\t}", New: "\tr := <-cr\n\n\treturn r.b, r.err"}}},
 		},
@@ -168,6 +170,8 @@ func selfBounded(fn *ssa.Function) bool {
 }
 
 func runC05(c *Ctx, r *Report) {
+	r.Rule("C05/no-double-close", "a driver Open does not close the channel again on the failing edge of Channel.Open (which closed it already; Close is not idempotent)", 2)
+	checkNoDoubleChannelClose(c, r, "C05/no-double-close")
 	r.Rule("C05/search-window", "prompt / response searches look at a suffix of the buffer that starts on a line boundary (else a line tail that looks like a prompt ends the operation early: success with partial output)", 4)
 	importObligations(r, func(sub *Report) { checkSearchDepth(c, sub) }, "C01/search-depth", "C05/search-window")
 	r.Rule("C05/fresh-operation", "channel.NewOperation and netconf.NewOperation hand every caller a freshly allocated options object (it carries the per-operation timeout)", 2)
